@@ -19,6 +19,14 @@ SKIP = {
 }
 
 
+# the every-change subset: the words with index / size / shift / offset arithmetic (where panics come from), one or two
+# per implementation family; the thorough tier runs every word of every loader
+QUICK_WORDS = ["nth", "slice", "get", "insert", "remove", "push", "reverse", "length", "concat", "join", "sort", "I", "J", "K", "unbox", "collect",
+               "/", "rem", "*", "bsl", "bsr", "abs", "neg", "round", ">int",
+               "bits", "bytes", "seek", "int", "uint", "u8", "i16le", "f32", "float", "open-bitstr", "close-bitstr", "emit", ">b", "find",
+               "bitstr-append", "hex>bitstr", "cstr", "base32", "base64>", "zero85"]
+
+
 def cell_lines(m, names):
     return [cell_push_line(m, n) for n in names]
 
@@ -45,8 +53,8 @@ def word_lemma(word, target, immediate, arity=3):
 
 def run(L, tier, only=None):
     covered, not_covered = [], []
-    L.ex.path_budget = 2500 if tier == "quick" else 40000
-    L.lemma_time_budget = 90 if tier == "quick" else 600
+    L.ex.path_budget = 1500 if tier == "quick" else 40000
+    L.lemma_time_budget = 12 if tier == "quick" else 600
     for loader in LOADERS:
         try:
             wm = word_map(L.ex, loader)
@@ -55,6 +63,8 @@ def run(L, tier, only=None):
             continue
         for w, (target, imm) in wm.items():
             if only and w not in only:
+                continue
+            if tier == "quick" and not only and w not in QUICK_WORDS:
                 continue
             if w in SKIP:
                 not_covered.append((w, SKIP[w]))
